@@ -117,7 +117,7 @@ def generate(rng, tier):
         elif u < 0.8:
             cs.append({"fn": "from1d", "kind": "from1d", "args": [e, no], "op": f"from1d {C.enc(e)} {C.enc(no)}"})
         else:   # one inconsistency
-            k = rng.choice(["notmesh-e", "notmesh-n", "mixed", "names", "exnames", "shape", "extrashape", "tiny-perturb"])
+            k = rng.choice(["notmesh-e", "notmesh-n", "mixed", "names", "names-string", "exnames", "shape", "extrashape", "tiny-perturb"])
             E2, N2, e2, n2, data2, names2, extras2, exn2 = E, N, e, no, data, names, extras, exnames
             two_d = True
             if k == "notmesh-e" and nn >= 2:
@@ -134,6 +134,8 @@ def generate(rng, tier):
                 continue
             elif k == "names":
                 names2 = names + ["zz"] if rng.random() < 0.5 else names[:-1]
+            elif k == "names-string" and nvar >= 2:
+                names2 = ["uvwz"[:nvar]]       # ONE name (handed over as a bare string) whose length happens to equal the number of arrays
             elif k == "exnames" and nex:
                 exn2 = rng.choice([None, exnames + ["q"], exnames[:-1]])
             elif k == "shape" and nn != ne:
